@@ -294,40 +294,78 @@ class _Gen:
         self.uid = 0
         self.lit = 0
 
-    def literal(self, t):
+    # --- primitive values: PEG ordered choice decides which alternative derives a token, so a
+    # value is generated as (token kind, route through the first alternative able to derive it)
+    def kinds(self, name, seen=()):
+        if name == "INT":
+            return ["INT"]
+        if name in ("ID", "STRING"):
+            return [name]
+        if name in self.mm:
+            m = self.mm[name]
+            if m["kind"] in ("re", "seq"):
+                return [m["kind"] + ":" + name]
+            out = []
+            for a in m["alts"]:
+                out += [k for k in self.kinds(a) if k not in out]
+            return out
+        if name in self.am and name not in seen:
+            out = []
+            for x in self.am[name]["alts"]:
+                out += [k for k in self.kinds(x["rule"], seen + (name,)) if k not in out]
+            return out
+        return []
+
+    def derive(self, name, kind):
         self.lit += 1
         n = self.lit
-        if t == "INT":
+        if name == "INT":
             return {"lit": str(n % 97), "rule": "INT"}
-        if t == "ID":
+        if name == "ID":
             return {"lit": f"x{n}", "rule": "ID"}
-        if t == "STRING":
+        if name == "STRING":
             return {"lit": f'"s{n}"', "rule": "STRING"}
-        m = self.mm[t]
+        if name in self.am:
+            for x in self.am[name]["alts"]:
+                if kind in self.kinds(x["rule"]):
+                    return self.derive(x["rule"], kind)
+            raise RuntimeError("no route")
+        m = self.mm[name]
         if m["kind"] == "re":
-            return {"lit": f"{m['prefix']}v{n}", "rule": t}
+            return {"lit": f"{m['prefix']}v{n}", "rule": name}
         if m["kind"] == "seq":
-            return {"lit": f"{m['prefix']} {n % 50} : {n % 7}", "rule": t, "parts": [n % 50, n % 7]}
-        inner = self.literal(self.rng.choice(m["alts"]))
-        return {"lit": inner["lit"], "rule": t, "inner": inner}
+            return {"lit": f"{m['prefix']} {n % 50} : {n % 7}", "rule": name, "parts": [n % 50, n % 7]}
+        for a in m["alts"]:
+            if kind in self.kinds(a):
+                inner = self.derive(a, kind)
+                return {"lit": inner["lit"], "rule": name, "inner": inner}
+        raise RuntimeError("no route")
 
-    def value(self, t, budget):
+    def literal(self, t):
+        return self.derive(t, self.rng.choice(self.kinds(t)))
+
+    def can_obj(self, name, budget, seen=()):
+        if name in self.rm:
+            return self.h[name] <= budget
+        if name in self.am and name not in seen:
+            return any(self.can_obj(x["rule"], budget, seen + (name,)) for x in self.am[name]["alts"])
+        return False
+
+    def value(self, t, budget, want=None):
         if t in self.rm:
             return self.obj(t, budget)
         if t in self.am:
-            alts = [x for x in self.am[t]["alts"] if self.h.get(x["rule"], 0) <= budget]
-            objs = [x for x in alts if x["rule"] in self.rm or x["rule"] in self.am]
-            prims = [x for x in alts if x not in objs]
-            if objs and (not prims or self.count < self.cap and self.rng.chance(0.75)):
+            objs = [x for x in self.am[t]["alts"] if self.can_obj(x["rule"], budget)]
+            prims = self.kinds(t)
+            if want is None:
+                want = "obj" if objs and (not prims or (self.count < self.cap and self.rng.chance(0.75))) else "prim"
+            if want == "obj":
                 x = self.rng.choice(objs)
-            elif prims:
-                x = self.rng.choice(prims)
-            else:
-                x = self.rng.choice(alts)
-            v = self.value(x["rule"], budget)
-            if x["wrap"] and isinstance(v, dict) and "uid" in v:
-                v["wrap"] = v.get("wrap", 0) + 1
-            return v
+                v = self.value(x["rule"], budget, "obj")
+                if x["wrap"] and isinstance(v, dict) and "uid" in v:
+                    v["wrap"] = v.get("wrap", 0) + 1
+                return v
+            return self.literal(t)
         return self.literal(t)
 
     def obj(self, rule, budget):
@@ -394,17 +432,11 @@ def gen_case(rng, multi=None, want_match=False, cap=18):
         else:
             rr = root_rule(schema)
             budget = max(depth, h[rr])
-            root = g.value(rr, budget)
-            tries = 0
-            while not (isinstance(root, dict) and "uid" in root):
-                # an abstract root rule chose a match alternative (the model would be a primitive),
-                # or its object alternatives need more depth
-                tries += 1
-                if tries % 5 == 0:
-                    budget += 1
-                if tries > 60:
+            while not g.can_obj(rr, budget):
+                budget += 1  # the object alternatives of an abstract root rule need more depth
+                if budget > 50:
                     raise RuntimeError("no object root")
-                root = g.value(rr, budget)
+            root = g.value(rr, budget, "obj")
         files.append({"root": root, "imports": []})
     if nfiles > 1:
         for j in range(1, nfiles):
